@@ -574,7 +574,7 @@ func writeEvidence(p *Prop, tier string, results []*gosym.RunResult, known map[s
 			"unwind_limit": r.Cfg.Unwind, "goroutine_mode": r.Cfg.Sched, "obligations": len(r.Obligations), "queries": len(r.Queries),
 			"merged_states": r.NStates, "merges": r.NMerges, "ssa_instructions": r.NInstr, "feasibility_queries": r.NFeas,
 			"threads": r.Threads, "scheduler_steps": r.SchedSteps, "segments": r.Segments,
-			"exec_s": round2(r.ExecSecs), "solve_s": round2(r.SolveSecs), "covers": r.Covers, "notes": r.Notes,
+			"exec_s": round2(r.ExecSecs), "solve_s": round2(r.SolveSecs), "covers": r.Covers, "notes": r.Notes, "cross_check_timeouts": r.CrossTimeouts,
 			"solvers": append([]string{r.Cfg.Solver}, r.Cfg.Cross...),
 		})
 	}
